@@ -1214,3 +1214,122 @@ func c07MethodIsAToken(c *Ctx) {
 			fmt.Sprintf("%s decides by %v instead of the token class alone: a method outside the built-in table (PROPFIND, MKCOL, REPORT, ...) or with a digit or '-' in it is refused with 'invalid HTTP method' although the request is well-formed (net/http accepts any token)", st, names))
 	}
 }
+
+// ---------------------------------------------------------------- C18.O17
+
+// c18PublishedBehindTheSweep: Stop takes the connections to close exactly once.
+// Acceptors are waited for, but AddConn may be called from any goroutine: a
+// connection that is published in the table after the sweep is closed by
+// nobody, and Stop waits for it for ever.  Stop therefore raises a flag in the
+// critical section that takes the tables, and addConn looks at the flag (under
+// the same mutex) after it has published the connection, and closes it.
+func c18PublishedBehindTheSweep(c *Ctx) {
+	const ob = "C18.O17"
+	const fFlag = "nbio.Engine.stopping"
+	const fMux = "nbio.Engine.mux"
+	L := c.Locks()
+	stop := c.Fn(ob, "(*nbio.Engine).Stop")
+	add := c.Fn(ob, "(*nbio.poller).addConn")
+	if stop == nil || add == nil {
+		return
+	}
+	// Stop: flag := true under Engine.mux, in the region that reads the connection table
+	{
+		key := fnKey(c.P, stop, "the sweep is announced under the mutex that takes the tables")
+		bad := "Engine.Stop does not announce its sweep: a connection that a user's goroutine is adding (Engine.AddConn, with the open handler still running) is published in the table behind the sweep, nobody closes it, and Stop waits in the connection wait group for ever"
+		fi := c.P.Info(stop)
+		for _, st := range c.P.StoresTo(stop, fFlag) {
+			if v, ok := ir.ConstBool(st.Val); !ok || !v {
+				continue
+			}
+			if !L.HeldClass(st, fMux) {
+				bad = "the stopping flag is set at " + c.Pos(st) + " without Engine.mux"
+				continue
+			}
+			bad = "the stopping flag is not set before the connection table is taken"
+			for _, a := range c.P.FieldAccesses(stop, func(k string) bool { return k == "nbio.Engine.connsUnix" }) {
+				if same, _ := L.SameRegion(fi, fMux, st, a.In); !a.Write && fi.Dominates(st, a.In) && same {
+					bad = ""
+				}
+			}
+		}
+		c.Cond(bad == "", ob, key, c.FnPos(stop), "stopping = true before the table snapshot, same critical section", bad)
+	}
+	// addConn: after the table store, on the way to the success return, the flag is read and its true edge closes
+	{
+		key := fnKey(c.P, add, "a connection published behind the sweep closes itself")
+		fi := c.P.Info(add)
+		// readers of the flag (under the mutex)
+		readers := map[*ssa.Function]bool{}
+		for _, f := range c.nbioFuncs() {
+			for _, a := range c.P.FieldAccesses(f, func(k string) bool { return k == fFlag }) {
+				if !a.Write && L.HeldClass(a.In, fMux) {
+					readers[f] = true
+				}
+			}
+		}
+		var pub ssa.Instruction
+		for _, a := range c.P.FieldAccesses(add, func(k string) bool { return k == "nbio.Engine.connsUnix" || k == "nbio.Engine.connsStd" }) {
+			_ = a
+		}
+		for _, b := range add.Blocks {
+			for _, in := range b.Instrs {
+				st, ok := in.(*ssa.Store)
+				if !ok {
+					continue
+				}
+				if ia, ok := st.Addr.(*ssa.IndexAddr); ok && c.P.LoadedField(ia.X) == "nbio.Engine.connsUnix" && !ir.IsNilConst(st.Val) {
+					pub = st
+				}
+			}
+		}
+		bad := ""
+		if pub == nil {
+			c.Unres(ob, key, "the table store was not found in addConn")
+			return
+		}
+		bad = "addConn does not look at the engine's stopping flag after it has published the connection (" + c.Pos(pub) + "): published behind Stop's sweep, the connection is closed by nobody and Stop waits for it for ever"
+		for _, cs := range c.P.Calls(add, nil) {
+			g := ir.StaticCallee(cs.Common)
+			if cs.Kind != "call" || g == nil || !readers[g] || !fi.Dominates(pub, cs.In) {
+				continue
+			}
+			bad = "the stopping flag is read at " + c.Pos(cs.In) + " but its true edge does not close the connection"
+			for _, i := range usedAsCond(cs.Value()) {
+				vis, _ := fi.ReachFromEdge(i, edgeOf(i, cs.Value(), true), nil)
+				for x := range vis {
+					if c2, ok := ir.AsCall(x); ok {
+						if n := c.P.CalleeName(c2.Common); n == "(*nbio.Conn).Close" || n == "(*nbio.Conn).closeWithError" || n == "(*nbio.Conn).CloseWithError" {
+							bad = ""
+						}
+					}
+				}
+			}
+			// every success return behind the publication passes the test
+			if bad == "" {
+				for _, r := range fi.Returns() {
+					if !fi.CanReach(pub, r) {
+						continue
+					}
+					if _, kind := c.retErr(fi, r); kind == "nonnil" {
+						continue
+					}
+					esc := fi.EscapesWithout([]ssa.Instruction{pub}, func(in ssa.Instruction) bool {
+						if in == cs.In {
+							return true
+						}
+						// the registration-failure branch closes the connection itself
+						if c2, ok := ir.AsCall(in); ok && c.P.CalleeName(c2.Common) == "(*nbio.Conn).closeWithError" {
+							return true
+						}
+						return false
+					})
+					if len(esc) > 0 {
+						bad = "a return of addConn behind the publication (" + c.Pos(esc[0]) + ") does not pass the stopping test"
+					}
+				}
+			}
+		}
+		c.Cond(bad == "", ob, key, c.Pos(pub), "flag read under Engine.mux behind the table store; true edge closes", bad)
+	}
+}
